@@ -156,10 +156,17 @@ Fixpoint node_factors (n : node) : list (nat * list Q) :=
   end.
 Definition prog_factors (l : list node) : list (nat * list Q) := flat_map node_factors l.
 
+(* factor tuples equal up to trailing zeros (a deeper hold whose inner loops do not change the voltage) *)
+Fixpoint qlist_tz_eqb (a b : list Q) : bool :=
+  match a, b with
+  | x :: a', y :: b' => Qeq_bool x y && qlist_tz_eqb a' b'
+  | [], l | l, [] => forallb (fun f => Qeq_bool f 0) l
+  end.
+
 (* no two different factor tuples of one channel share a register key *)
 Definition keys_inj_b (Fs : list (nat * list Q)) : bool :=
   forallb (fun a => forallb (fun b =>
-     negb (Nat.eqb (fst a) (fst b) && key_eqb (mk_key (snd a)) (mk_key (snd b))) || qlist_eqb (snd a) (snd b)) Fs) Fs.
+     negb (Nat.eqb (fst a) (fst b) && key_eqb (mk_key (snd a)) (mk_key (snd b))) || qlist_tz_eqb (snd a) (snd b)) Fs) Fs.
 
 Definition prog_ok (reps : bool) (C : nat) (prog : list node) : bool :=
   nodes_ok reps C 0 prog && keys_inj_b (prog_factors prog).
